@@ -443,6 +443,8 @@ for _name, _kinds, _rule in [
              "and compared with the model's verdict; non-trivial = the defect is present" % _rule,
              [planner_part(_name, _unit_nt),
               e2e_part(_name, [("x", {"plant": list(_kinds), "units": [1, 2], "p_twin": 0.6}),
+                               # several injectors, spread over several files: a defect in one file is not forgotten because of another
+                               ("m", {"plant": list(_kinds), "units": [2, 3], "p_twin": 0.3, "p_multi_file": 1.0, "plant_p": 0.4}),
                                ("y", {"plant": list(_kinds), "units": [1, 2], "adversarial": True, "plant_p": 0.7, "p_samepkg": 0.8,
                                       "max_structs": 9, "min_structs": 6})]
                       # the other form of a binding's concrete type, with the marker functions dot-imported or renamed
@@ -469,7 +471,9 @@ register("C09",
          "non-trivial = list of length >= 2 / planted program",
          [stream_part("C09", lambda tier: [("signatures", "sig", ["-nodes", 4])],
                       nontrivial=lambda case, im: len(case.get("raw", [])) >= 3, exhaustive=True),
-          e2e_part("C09", [("g", {"plant": ["neederr", "needcleanup"], "p_err": 0.6, "p_cleanup": 0.6, "units": [1, 2]})],
+          e2e_part("C09", [("g", {"plant": ["neederr", "needcleanup"], "p_err": 0.6, "p_cleanup": 0.6, "units": [1, 2]}),
+                           # twin injectors over the same providers: what one injector's signature allows says nothing about the other's
+                           ("t", {"plant": ["neederr", "needcleanup"], "p_err": 0.7, "p_cleanup": 0.7, "units": [1, 2], "p_twin": 1.0, "plant_p": 0.5})],
                    _pairs_plan, set(), _planted, n_quick=60, n_thorough=600, build=False, runit=False,
                    extra=_planted_oracle({"neederr": "neederr:", "needcleanup": "needcleanup:"}))])
 
